@@ -1,6 +1,6 @@
-SPECIFICATION Spec
-CONSTANTS MaxSecs = 3 MaxOpts = 1 MaxMem = 2 MaxTop = 3 Mode = "mc"
+SPECIFICATION SpecMC
+CONSTANTS MaxSecs = 3 MaxOpts = 1 MaxMem = 2 MaxTop = 2 Mode = "mc"
 VIEW View
-INVARIANTS TypeOK Refines BindPure Contained BindsNamed CopiesEqual
+INVARIANTS TypeOK Refines Contained BindsNamed CopiesEqual
 PROPERTIES OptFrame Reported OpenFrame
 CHECK_DEADLOCK FALSE
